@@ -1690,6 +1690,13 @@ Qed.
 
 End Ordered.
 
+Lemma untainted_deps e : no_restat_upstream_of_deps g hid = true -> (e < g_nedges g)%nat ->
+  ei_deps (g_edge g e) = DepsLog -> reads_tainted g hid e = false.
+Proof.
+  intros Hn He Hd. pose proof (edges_all_spec g _ e Hn He) as H. cbn beta in H.
+  rewrite Hd in H. cbn [is_deps_log negb orb] in H. apply negb_true_iff in H. exact H.
+Qed.
+
 Section PartC.
 Variables (ds0 : dstate) (T : list node) (s0 : sstate) (p0 : plan).
 Hypothesis HG0 : GoodD ds0.
@@ -2203,7 +2210,8 @@ Proof.
   assert (Hne' : needed gi T e).
   { exists n. split; [|exact Hp]. destruct (reach_outs_T k n Hnk Rn) as [Hc|H]; [contradiction|exact H]. }
   rewrite (G_hash_eq gi st0 (istk k) (hash_i k ltac:(lia))).
-  apply (build_inv_c02 cmd gi Hwfi Hwg Hfi Htopo st0 T si pi HGi Hscan_i k (nip_inline Hnip) ltac:(lia) e Hlt Hne' o Ho).
+  assert (Hkn : (k <= g_nedges gi)%nat) by (cbn [inline g_nedges]; lia).
+  apply (build_inv_c02 cmd gi Hwfi Hwg Hfi Htopo st0 T si pi HGi Hscan_i k (nip_inline Hnip) Hkn e Hlt Hne' o Ho).
 Qed.
 
 Lemma step_dirty_eq k : (k < n_)%nat -> stk k = istk k ->
@@ -2222,8 +2230,9 @@ Proof.
   { intros Hck. apply (dirty_now_false GN X k Hwn Hwg Hfn topo_now).
     intros e [n [Rn Hp]] o Ho Hmd. apply mono_now in Hmd.
     destruct (Nat.eq_dec e k) as [->|Hne]; [apply (Hck o Ho Hmd)|].
-    apply (Hup e); [|exact Hne|exact Ho|exact Hmd].
-    exists n. split; [|exact Hp]. apply (reach_G gi X (outs k) n). apply (reach_now_i X (outs k) n Rn). }
+    assert (Hne2 : neededE (GiX X) (outs k) e).
+    { exists n. split; [|exact Hp]. apply (reach_G gi X (outs k) n). apply (reach_now_i X (outs k) n Rn). }
+    exact (Hup e Hne2 Hne o Ho Hmd). }
   unfold dirty_now_d. rewrite Heq. fold X.
   destruct (dirty_now gi X k) eqn:HI.
   - (* dirty for the inlined manifest *)
@@ -2234,7 +2243,7 @@ Proof.
       assert (Hmiss : es_deps_missing (st_edge s0 k) = false).
       { destruct AF as [_ [HR _]]. destruct (HR k Hd) as [_ [_ [_ [_ [_ H6]]]]].
         destruct (es_deps_missing (st_edge s0 k)); [|reflexivity].
-        rewrite (spec_load_none G0 W0 k Hdk) in H6. destruct (proj2 H6 eq_refl); discriminate. }
+        rewrite (spec_load_none G0 W0 k Hdk) in H6. pose proof (proj2 H6 eq_refl) as Hc. discriminate Hc. }
       rewrite Hmiss. cbn [orb]. destruct (dirty_now GN X k) eqn:HD; [reflexivity|exfalso].
       pose proof (dirty_now_spec GN Hwn Hwg Hfn X k HD) as Hcn.
       assert (EJ : nonoo_ins GN k = read_ins g hid k).
@@ -2278,7 +2287,7 @@ Proof.
     pose proof (proj2 H6 Hmiss) as Hfail.
     destruct (load_cases ds0 k HG0 Hk) as [[_ [_ [o0 [Ho0 Hdo]]]]|[l [Hl _]]]; [|congruence].
     apply (Hci o0 Ho0). apply (md_self (GiX X) (world_of X) o0 k o0 (o_prodC k o0 Ho0) Hph Ho0).
-    left. left. cbn [world_of w_mtime]. unfold mtime_of, X. rewrite <- Heq.
+    left. left. cbn [world_of w_mtime]. unfold mtime_of. rewrite <- Heq.
     rewrite (proj1 (outs_before k k o0 ltac:(lia) (le_n k) Ho0)), Hdo. reflexivity.
 Qed.
 
@@ -2302,12 +2311,6 @@ End EquivBuild.
 End PartC.
 
 (* ---- consequences for one build *)
-Lemma untainted_deps e : no_restat_upstream_of_deps g hid = true -> (e < g_nedges g)%nat ->
-  ei_deps (g_edge g e) = DepsLog -> reads_tainted g hid e = false.
-Proof.
-  intros Hn He Hd. pose proof (edges_all_spec g _ e Hn He) as H. cbn beta in H.
-  rewrite Hd in H. cbn [is_deps_log negb orb] in H. apply negb_true_iff in H. exact H.
-Qed.
 
 (* a real statement the targets need, some output of which must be remade, and which reads from no
    restat statement, is run by the build *)
@@ -2420,4 +2423,383 @@ Proof.
     apply (hidden_read_dirties ds e i o HG He Hdk Hi Ho Hsrc). left; exact Hmiss.
 Qed.
 
+(* ================================================================== Part F: histories *)
+Section HistEquiv.
+Hypothesis Hord : hidden_reads_ordered g hid = true.
+Hypothesis Hnr : no_restat_upstream_of_deps g hid = true.
+Hypothesis Hnip : no_inputless_phony g = true.
+
+(* one build: if both manifests accept the request, they run the same commands *)
+Theorem C10_equiv_build_proof ds T ds' st' :
+  GoodD ds -> dbuild cmd g hid ds T = Some ds' -> build cmd gi (d_h ds) T = Some st' ->
+  d_h ds' = st'.
+Proof.
+  intros HG Hb Hi. unfold dbuild in Hb. unfold build in Hi.
+  destruct (dscan g ds T) as [c|m d|e| |s p] eqn:Hs; try discriminate.
+  destruct (scan (graph_of gi (d_h ds)) (world_of (d_h ds)) T) as [c|m d|e| |si pi] eqn:Hsi; try discriminate.
+  inversion Hb; inversion Hi; subst ds' st'.
+  apply (equiv_upto ds T s p HG Hs Hord Hnr Hnip si pi Hsi (g_nedges g) (le_n _)).
+Qed.
+
+Lemma both_accept_spec ds T : both_accept g hid ds (d_h ds) T = true ->
+  exists ds' st', dbuild cmd g hid ds T = Some ds' /\ build cmd gi (d_h ds) T = Some st'.
+Proof.
+  unfold both_accept, dbuild, build.
+  destruct (dscan g ds T) as [c|m d|e| |s p]; try discriminate.
+  destruct (scan (graph_of gi (d_h ds)) (world_of (d_h ds)) T) as [c|m d|e| |si pi]; try discriminate.
+  intros _. eexists. eexists. split; reflexivity.
+Qed.
+
+(* C10_equiv: the deps manifest and the inlined manifest go through the same states *)
+Theorem C10_equiv_states : forall h ds,
+  GoodD ds -> hist_ok g h = true -> hist_side cmd g hid ds (d_h ds) h = true ->
+  d_h (drun_hist cmd g hid ds h) = run_hist cmd gi (d_h ds) h.
+Proof.
+  induction h as [|x h IH]; intros ds HG Hok Hside; [reflexivity|].
+  cbn [hist_ok forallb] in Hok. apply andb_true_iff in Hok. destruct Hok as [Hx Hh].
+  cbn [hist_side] in Hside. apply andb_true_iff in Hside. destruct Hside as [Hsx Hsh].
+  change (drun_hist cmd g hid ds (x :: h)) with (drun_hist cmd g hid (dapply_step cmd g hid ds x) h).
+  change (run_hist cmd gi (d_h ds) (x :: h)) with (run_hist cmd gi (apply_step cmd gi (d_h ds) x) h).
+  assert (Estep : d_h (dapply_step cmd g hid ds x) = apply_step cmd gi (d_h ds) x).
+  { destruct x as [n c|n|e hh|T]; cbn [dapply_step apply_step dlift d_h]; try reflexivity.
+    destruct (both_accept_spec ds T Hsx) as [ds' [st' [Hb Hi]]]. rewrite Hb, Hi.
+    apply (C10_equiv_build_proof ds T ds' st' HG Hb Hi). }
+  rewrite <- Estep. apply IH; [apply goodd_step; assumption|exact Hh|rewrite Estep; exact Hsh].
+Qed.
+
+Theorem C10_equiv_proof h :
+  hist_ok g h = true -> hist_side cmd g hid (init_dstate g) (init_hstate gi) h = true ->
+  d_h (drun_hist cmd g hid (init_dstate g) h) = run_hist cmd gi (init_hstate gi) h.
+Proof.
+  intros Hok Hside. apply (C10_equiv_states h (init_dstate g) goodd_init Hok Hside).
+Qed.
+
+(* hence C01: after a history that ends with a successful build, the deps manifest has the
+   contents of a clean build (of the ground truth: hidden reads included) *)
+Theorem C10_C01_proof h T :
+  (forall e hh hh' S o, ei_generator (g_edge g e) = true -> cmd e hh S o = cmd e hh' S o) ->
+  hist_ok g (h ++ [Build T]) = true ->
+  hist_side cmd g hid (init_dstate g) (init_hstate gi) (h ++ [Build T]) = true ->
+  let ds' := drun_hist cmd g hid (init_dstate g) (h ++ [Build T]) in
+  forall n, reach gi T n -> content_of (d_h ds') n = clean_of_d cmd g hid ds' n.
+Proof.
+  intros Hgen Hok Hside ds' n Rn. unfold clean_of_d, ds'.
+  rewrite (C10_equiv_proof (h ++ [Build T]) Hok Hside).
+  unfold run_hist. rewrite fold_left_app. cbn [fold_left apply_step].
+  fold (run_hist cmd gi (init_hstate gi) h).
+  assert (Hokh : hist_ok g h = true).
+  { unfold hist_ok in *. rewrite forallb_app in Hok. apply andb_true_iff in Hok. apply Hok. }
+  destruct (build cmd gi (run_hist cmd gi (init_hstate gi) h) T) as [st'|] eqn:Hb.
+  - apply (C01_history cmd gi Hwfi Hwg (frag_AB_inline g hid HfD) Htopo Hgen h T st' Hokh Hb n Rn).
+  - exfalso. (* the last build was accepted by both: hist_side says so *)
+    assert (Hacc : forall h0 ds st, GoodD ds -> d_h ds = st -> hist_ok g h0 = true ->
+              hist_side cmd g hid ds st (h0 ++ [Build T]) = true ->
+              build cmd gi (run_hist cmd gi st h0) T <> None).
+    { induction h0 as [|x h0 IH0]; intros ds st HG Hst Hok0 Hs0.
+      - cbn [app hist_side] in Hs0. apply andb_true_iff in Hs0. destruct Hs0 as [Hs0 _]. subst st.
+        destruct (both_accept_spec ds T Hs0) as [_ [st'' [_ Hi]]]. cbn [run_hist fold_left]. congruence.
+      - cbn [hist_ok forallb] in Hok0. apply andb_true_iff in Hok0. destruct Hok0 as [Hx Hh0].
+        change ((x :: h0) ++ [Build T]) with (x :: (h0 ++ [Build T])) in Hs0. cbn [hist_side] in Hs0.
+        apply andb_true_iff in Hs0. destruct Hs0 as [Hsx Hsh]. subst st.
+        change (run_hist cmd gi (d_h ds) (x :: h0)) with (run_hist cmd gi (apply_step cmd gi (d_h ds) x) h0).
+        assert (Estep : d_h (dapply_step cmd g hid ds x) = apply_step cmd gi (d_h ds) x).
+        { pose proof (C10_equiv_states [x] ds HG) as H1. cbn [hist_ok forallb hist_side drun_hist run_hist fold_left] in H1.
+          apply H1; [rewrite Hx; reflexivity|rewrite Hsx; reflexivity]. }
+        apply (IH0 (dapply_step cmd g hid ds x) _ (goodd_step ds x HG Hx) Estep Hh0 Hsh). }
+    apply (Hacc h (init_dstate g) (init_hstate gi) goodd_init eq_refl Hokh Hside). exact Hb.
+Qed.
+
+Lemma dbuild_upto_idle s p ds : (forall e, p_want p e <> Some WantToStart) ->
+  forall k, dbuild_upto cmd g hid s p k ds = ds.
+Proof.
+  intros Hp. induction k as [|k IH]; [reflexivity|]. rewrite dbuild_upto_S, IH. unfold dbuild_step.
+  assert (Hw : want_start p k = false).
+  { destruct (want_start p k) eqn:E; [|reflexivity]. apply want_start_iff in E. destruct (Hp k E). }
+  rewrite Hw. reflexivity.
+Qed.
+
+(* ... and C02: after a successful build (accepted by both manifests, from a state both share) the
+   deps manifest wants nothing: a second build runs no command and changes nothing *)
+Theorem C10_C02_proof ds T ds' st' :
+  GoodD ds -> dbuild cmd g hid ds T = Some ds' -> build cmd gi (d_h ds) T = Some st' ->
+  (forall s p, dscan g ds' T = ScanOk s p -> forall e, p_want p e <> Some WantToStart) /\
+  (forall ds'', dbuild cmd g hid ds' T = Some ds'' -> ds'' = ds').
+Proof.
+  intros HG Hb Hi. pose proof (C10_equiv_build_proof ds T ds' st' HG Hb Hi) as Heq.
+  pose proof (goodd_build ds T ds' HG Hb) as HG'.
+  destruct (C02_converges cmd gi Hwfi Hwg (frag_AB_inline g hid HfD) Htopo (d_h ds) T st' (proj1 HG) (nip_inline Hnip) Hi)
+    as [s2 [p2 [Hs2 Hnone]]].
+  rewrite <- Heq in Hs2.
+  assert (Hwant : forall s p, dscan g ds' T = ScanOk s p -> forall e, p_want p e <> Some WantToStart).
+  { intros s p Hs e Hw. apply want_start_iff in Hw.
+    rewrite (want_eq Hord Hnip ds' T s p s2 p2 HG' Hs Hs2 e) in Hw. apply want_start_iff in Hw. apply (Hnone e Hw). }
+  split; [exact Hwant|].
+  intros ds'' Hb2. unfold dbuild in Hb2. destruct (dscan g ds' T) as [c|m d|e| |s p] eqn:Hs; try discriminate.
+  inversion Hb2; subst ds''. apply dbuild_upto_idle. apply (Hwant s p eq_refl).
+Qed.
+
+End HistEquiv.
+
 End PartA.
+
+(* ================================================================== the example projects are models *)
+Lemma ExD_wf_spec : wf_spec ExD.g.
+Proof.
+  split; [|split].
+  - intros e o Ho. destruct e as [|[|[|e]]]; cbn in Ho; try (destruct Ho as [<-|[]]; reflexivity); destruct Ho.
+  - intros n e Hp. destruct n as [|[|[|[|[|n]]]]]; cbn in Hp; try discriminate; inversion Hp; subst; cbn; left; reflexivity.
+  - intros e Hd. destruct e as [|[|[|e]]]; cbn in *; try congruence. split; [reflexivity|lia].
+Qed.
+Lemma ExD_wf_graph : wf_graph ExD.g.
+Proof. intros n e Hp. destruct n as [|[|[|[|[|n]]]]]; cbn in Hp; try discriminate; inversion Hp; subst; cbn; lia. Qed.
+Lemma Ex_cmd_gen (g : graph) : (forall e, ei_generator (g_edge g e) = false) ->
+  forall e h h' S o, ei_generator (g_edge g e) = true -> Ex.cmd e h S o = Ex.cmd e h' S o.
+Proof. intros Hg e h h' S o H. rewrite (Hg e) in H. discriminate. Qed.
+
+Lemma ExRestatPrune_wf_spec : wf_spec ExRestatPrune.g.
+Proof.
+  split; [|split].
+  - intros e o Ho. destruct e as [|[|e]]; cbn in Ho; try (destruct Ho as [<-|[]]; reflexivity); destruct Ho.
+  - intros n e Hp. destruct n as [|[|[|[|n]]]]; cbn in Hp; try discriminate; inversion Hp; subst; cbn; left; reflexivity.
+  - intros e Hd. destruct e as [|[|e]]; cbn in *; try congruence. split; [reflexivity|lia].
+Qed.
+Lemma ExRestatPrune_wf_graph : wf_graph ExRestatPrune.g.
+Proof. intros n e Hp. destruct n as [|[|[|[|n]]]]; cbn in Hp; try discriminate; inversion Hp; subst; cbn; lia. Qed.
+
+Lemma ExNotLoaded_wf_spec : wf_spec ExNotLoaded.g.
+Proof.
+  split; [|split].
+  - intros e o Ho. destruct e as [|[|e]]; cbn in Ho; try (destruct Ho as [<-|[]]; reflexivity); destruct Ho.
+  - intros n e Hp. destruct n as [|[|[|[|n]]]]; cbn in Hp; try discriminate; inversion Hp; subst; cbn; left; reflexivity.
+  - intros e Hd. destruct e as [|[|e]]; cbn in *; try congruence. split; [reflexivity|lia].
+Qed.
+Lemma ExNotLoaded_wf_graph : wf_graph ExNotLoaded.g.
+Proof. intros n e Hp. destruct n as [|[|[|[|n]]]]; cbn in Hp; try discriminate; inversion Hp; subst; cbn; lia. Qed.
+
+(* ================================================================== the full statements and the two findings *)
+(* C10_equiv and its corollary C01 with the two side conditions as switches *)
+Definition C10_equiv_full (need_ord need_nr : bool) : Prop :=
+  forall (cmd : edge -> N -> snapshot -> node -> content) (g : graph) (hid : edge -> list node),
+    wf_spec g -> wf_graph g -> frag_ABD g hid = true -> topo_ordered (inline g hid) = true ->
+    (need_ord = true -> hidden_reads_ordered g hid = true) ->
+    (need_nr = true -> no_restat_upstream_of_deps g hid = true) ->
+    no_inputless_phony g = true ->
+  forall h : list hstep,
+    hist_ok g h = true ->
+    hist_side cmd g hid (init_dstate g) (init_hstate (inline g hid)) h = true ->
+    d_h (drun_hist cmd g hid (init_dstate g) h) = run_hist cmd (inline g hid) (init_hstate (inline g hid)) h.
+
+Definition C10_C01_full (need_ord need_nr : bool) : Prop :=
+  forall (cmd : edge -> N -> snapshot -> node -> content) (g : graph) (hid : edge -> list node),
+    wf_spec g -> wf_graph g -> frag_ABD g hid = true -> topo_ordered (inline g hid) = true ->
+    (need_ord = true -> hidden_reads_ordered g hid = true) ->
+    (need_nr = true -> no_restat_upstream_of_deps g hid = true) ->
+    no_inputless_phony g = true ->
+    (forall e hh hh' S o, ei_generator (g_edge g e) = true -> cmd e hh S o = cmd e hh' S o) ->
+  forall (h : list hstep) (T : list node),
+    hist_ok g (h ++ [Build T]) = true ->
+    hist_side cmd g hid (init_dstate g) (init_hstate (inline g hid)) (h ++ [Build T]) = true ->
+    let ds' := drun_hist cmd g hid (init_dstate g) (h ++ [Build T]) in
+    forall n, reach (inline g hid) T n -> content_of (d_h ds') n = clean_of_d cmd g hid ds' n.
+
+Theorem C10_equiv_full_proof : C10_equiv_full true true.
+Proof.
+  intros cmd g hid Hwf Hwg Hfrag Htopo Hord Hnr Hnip h Hok Hside.
+  apply (C10_equiv_proof cmd g hid Hwf Hwg Hfrag Htopo (Hord eq_refl) (Hnr eq_refl) Hnip h Hok Hside).
+Qed.
+
+Theorem C10_C01_full_proof : C10_C01_full true true.
+Proof.
+  intros cmd g hid Hwf Hwg Hfrag Htopo Hord Hnr Hnip Hgen h T Hok Hside.
+  apply (C10_C01_proof cmd g hid Hwf Hwg Hfrag Htopo (Hord eq_refl) (Hnr eq_refl) Hnip h T Hgen Hok Hside).
+Qed.
+
+(* finding restat-prune-ignores-recorded-deps: without [no_restat_upstream_of_deps] both are false *)
+Theorem C10_restat_prune_refuted_proof : ~ C10_C01_full true false /\ ~ C10_equiv_full true false.
+Proof.
+  split.
+  - intros H.
+    pose proof (H ExRestatPrune.cmd ExRestatPrune.g ExRestatPrune.hid ExRestatPrune_wf_spec ExRestatPrune_wf_graph
+                  ltac:(vm_compute; reflexivity) ltac:(vm_compute; reflexivity) ltac:(intros _; vm_compute; reflexivity)
+                  ltac:(discriminate) ltac:(vm_compute; reflexivity)
+                  (Ex_cmd_gen ExRestatPrune.g ltac:(intros [|[|e]]; reflexivity))
+                  (firstn 5 ExRestatPrune.hist) [3%nat]
+                  ltac:(vm_compute; reflexivity) ltac:(vm_compute; reflexivity) 3%nat
+                  ltac:(apply reach_target; left; reflexivity)) as Hc.
+    revert Hc. vm_compute. discriminate.
+  - intros H.
+    pose proof (H ExRestatPrune.cmd ExRestatPrune.g ExRestatPrune.hid ExRestatPrune_wf_spec ExRestatPrune_wf_graph
+                  ltac:(vm_compute; reflexivity) ltac:(vm_compute; reflexivity) ltac:(intros _; vm_compute; reflexivity)
+                  ltac:(discriminate) ltac:(vm_compute; reflexivity)
+                  ExRestatPrune.hist ltac:(vm_compute; reflexivity) ltac:(vm_compute; reflexivity)) as Hc.
+    apply (f_equal (@h_trace)) in Hc. revert Hc. vm_compute. discriminate.
+Qed.
+
+(* finding dirty-edge-deps-not-loaded: without [hidden_reads_ordered] both are false *)
+Theorem C10_dirty_edge_deps_not_loaded_refuted_proof : ~ C10_C01_full false true /\ ~ C10_equiv_full false true.
+Proof.
+  split.
+  - intros H.
+    pose proof (H ExNotLoaded.cmd ExNotLoaded.g ExNotLoaded.hid ExNotLoaded_wf_spec ExNotLoaded_wf_graph
+                  ltac:(vm_compute; reflexivity) ltac:(vm_compute; reflexivity) ltac:(discriminate)
+                  ltac:(intros _; vm_compute; reflexivity) ltac:(vm_compute; reflexivity)
+                  (Ex_cmd_gen ExNotLoaded.g ltac:(intros [|[|e]]; reflexivity))
+                  (firstn 5 ExNotLoaded.hist) [3%nat]
+                  ltac:(vm_compute; reflexivity) ltac:(vm_compute; reflexivity) 3%nat
+                  ltac:(apply reach_target; left; reflexivity)) as Hc.
+    revert Hc. vm_compute. discriminate.
+  - intros H.
+    pose proof (H ExNotLoaded.cmd ExNotLoaded.g ExNotLoaded.hid ExNotLoaded_wf_spec ExNotLoaded_wf_graph
+                  ltac:(vm_compute; reflexivity) ltac:(vm_compute; reflexivity) ltac:(discriminate)
+                  ltac:(intros _; vm_compute; reflexivity) ltac:(vm_compute; reflexivity)
+                  ExNotLoaded.hist ltac:(vm_compute; reflexivity) ltac:(vm_compute; reflexivity)) as Hc.
+    apply (f_equal (@h_trace)) in Hc. revert Hc. vm_compute. discriminate.
+Qed.
+
+(* the same as concrete witnesses: an accepted history whose last build succeeds and leaves an
+   output that is not what a clean build makes, while the inlined manifest gets it right *)
+Definition C10_stale_witness (need_ord need_nr : bool) : Prop :=
+  exists (cmd : edge -> N -> snapshot -> node -> content) (g : graph) (hid : edge -> list node)
+         (h : list hstep) (T : list node) (n : node),
+    wf_spec g /\ wf_graph g /\ frag_ABD g hid = true /\ topo_ordered (inline g hid) = true /\
+    hidden_reads_ordered g hid = need_ord /\ no_restat_upstream_of_deps g hid = need_nr /\
+    no_inputless_phony g = true /\
+    hist_ok g (h ++ [Build T]) = true /\
+    hist_side cmd g hid (init_dstate g) (init_hstate (inline g hid)) (h ++ [Build T]) = true /\
+    reach (inline g hid) T n /\
+    (exists ds', dbuild cmd g hid (drun_hist cmd g hid (init_dstate g) h) T = Some ds' /\
+                 content_of (d_h ds') n <> clean_of_d cmd g hid ds' n) /\
+    (exists st', build cmd (inline g hid) (run_hist cmd (inline g hid) (init_hstate (inline g hid)) h) T = Some st' /\
+                 content_of st' n = clean_of cmd (inline g hid) st' n).
+
+Theorem C10_restat_prune_witness_proof : C10_stale_witness true false.
+Proof.
+  exists ExRestatPrune.cmd, ExRestatPrune.g, ExRestatPrune.hid, (firstn 5 ExRestatPrune.hist), [3%nat], 3%nat.
+  split; [exact ExRestatPrune_wf_spec|]. split; [exact ExRestatPrune_wf_graph|].
+  repeat (split; [vm_compute; reflexivity|]).
+  split; [apply reach_target; left; reflexivity|]. split.
+  - eexists. split; [vm_compute; reflexivity|vm_compute; discriminate].
+  - eexists. split; [vm_compute; reflexivity|vm_compute; reflexivity].
+Qed.
+
+Theorem C10_dirty_edge_deps_not_loaded_witness_proof : C10_stale_witness false true.
+Proof.
+  exists ExNotLoaded.cmd, ExNotLoaded.g, ExNotLoaded.hid, (firstn 5 ExNotLoaded.hist), [3%nat], 3%nat.
+  split; [exact ExNotLoaded_wf_spec|]. split; [exact ExNotLoaded_wf_graph|].
+  repeat (split; [vm_compute; reflexivity|]).
+  split; [apply reach_target; left; reflexivity|]. split.
+  - eexists. split; [vm_compute; reflexivity|vm_compute; discriminate].
+  - eexists. split; [vm_compute; reflexivity|vm_compute; reflexivity].
+Qed.
+
+(* ================================================================== the statements Properties_C10hist.v restates *)
+Theorem C10_good_hist_proof :
+  forall (cmd : edge -> N -> snapshot -> node -> content) (g : graph) (hid : edge -> list node),
+    wf_spec g -> frag_ABD g hid = true -> topo_ordered (inline g hid) = true ->
+  forall h : list hstep, hist_ok g h = true ->
+    Good cmd (inline g hid) (d_h (drun_hist cmd g hid (init_dstate g) h)) /\
+    DepsOk g hid (drun_hist cmd g hid (init_dstate g) h).
+Proof.
+  intros cmd g hid Hwf Hfrag Htopo h Hok.
+  apply (goodd_hist cmd g hid Hwf Hfrag Htopo h (init_dstate g) (goodd_init cmd g hid) Hok).
+Qed.
+
+Theorem C10_records_invariant_proof :
+  forall (cmd : edge -> N -> snapshot -> node -> content) (g : graph) (hid : edge -> list node),
+    wf_spec g -> frag_ABD g hid = true -> topo_ordered (inline g hid) = true ->
+  forall h : list hstep, hist_ok g h = true ->
+    DepsOk g hid (drun_hist cmd g hid (init_dstate g) h).
+Proof. intros cmd g hid Hwf Hfrag Htopo h Hok. apply (C10_good_hist_proof cmd g hid Hwf Hfrag Htopo h Hok). Qed.
+
+Theorem C10_one_command_proof :
+  forall (cmd : edge -> N -> snapshot -> node -> content) (g : graph) (hid : edge -> list node),
+    frag_ABD g hid = true ->
+  forall (ds : dstate) (e : nat), (e < g_nedges g)%nat ->
+    d_h (drun_edge cmd g hid ds e) = run_edge cmd (inline g hid) (d_h ds) e.
+Proof. exact drun_edge_h. Qed.
+
+Theorem C10_dirty_state_same_proof :
+  forall (cmd : edge -> N -> snapshot -> node -> content) (g : graph) (hid : edge -> list node),
+    wf_spec g -> wf_graph g -> frag_ABD g hid = true ->
+  forall (ds : dstate) (n : node), GoodD cmd g hid ds ->
+    (must_dirty (graph_of g (d_h ds)) (world_of_d ds) n <->
+     must_dirty (graph_of (inline g hid) (d_h ds)) (world_of (d_h ds)) n).
+Proof.
+  intros cmd g hid Hwf Hwg Hfrag ds n HG. split.
+  - apply (md_d_i cmd g hid Hwf Hwg Hfrag ds n HG).
+  - apply (md_i_d cmd g hid Hwf Hwg Hfrag ds n HG).
+Qed.
+
+Theorem C10_same_plan_proof :
+  forall (cmd : edge -> N -> snapshot -> node -> content) (g : graph) (hid : edge -> list node),
+    wf_spec g -> wf_graph g -> frag_ABD g hid = true ->
+    hidden_reads_ordered g hid = true -> no_inputless_phony g = true ->
+  forall (ds : dstate) (T : list node) (s : sstate) (p : plan) (si : sstate) (pi : plan),
+    GoodD cmd g hid ds -> dscan g ds T = ScanOk s p ->
+    scan (graph_of (inline g hid) (d_h ds)) (world_of (d_h ds)) T = ScanOk si pi ->
+    forall e : edge, want_start p e = want_start pi e.
+Proof. exact want_eq. Qed.
+
+Theorem C10_scan_want_sound_proof :
+  forall (g : graph) (w : world), wf_spec g -> wf_graph g -> frag_D g = true ->
+  forall (T : list node) (s : sstate) (p : plan), scan g w T = ScanOk s p ->
+  forall e : edge, p_want p e = Some WantToStart ->
+    neededP g w T e /\ es_mark (st_edge s e) = VisitDone /\ es_ready (st_edge s e) = false /\
+    (exists o : node, In o (ei_outs (g_edge g e)) /\ must_dirty g w o).
+Proof. exact scan_want_soundD. Qed.
+
+Theorem C10_scan_want_complete_proof :
+  forall (g : graph) (w : world), wf_spec g -> wf_graph g -> frag_D g = true ->
+  forall (T : list node) (s : sstate) (p : plan), scan g w T = ScanOk s p ->
+  forall e : edge,
+    (exists n : node, reachS g T s n /\ g_producer g n = Some e) ->
+    (exists o : node, In o (ei_outs (g_edge g e)) /\ must_dirty g w o) ->
+    ~ (ei_phony (g_edge g e) = true /\ ei_ins (g_edge g e) = []) ->
+    p_want p e = Some WantToStart /\ closed_atD g s p e.
+Proof. exact scan_want_completeD. Qed.
+
+(* what the scan did with the record of a finished statement *)
+Theorem C10_scan_record_use_proof :
+  forall (g : graph) (w : world), wf_spec g -> wf_graph g -> frag_D g = true ->
+  forall (T : list node) (s : sstate) (p : plan), scan g w T = ScanOk s p ->
+  forall e : edge, es_mark (st_edge s e) = VisitDone ->
+    ((es_ins (st_edge s e) = ei_ins (g_edge g e) /\
+      (es_deps_missing (st_edge s e) = true \/ own_dirty g w e)) \/
+     (exists l, spec_load g w e = LdOk l /\
+                es_ins (st_edge s e) = splice (ei_ins (g_edge g e)) (ei_noo (g_edge g e)) l /\
+                es_deps_missing (st_edge s e) = false)) /\
+    (spec_load g w e = LdFail <-> es_deps_missing (st_edge s e) = true).
+Proof.
+  intros g w Hwf Hwg Hf T s p Hs e Hd.
+  destruct (accepted_factsD g w Hwf Hwg Hf T s p Hs) as [_ [HR _]].
+  destruct (HR e Hd) as [_ [_ [_ [_ H]]]]. exact H.
+Qed.
+
+Theorem C10_dirty_persists_proof :
+  forall (cmd : edge -> N -> snapshot -> node -> content) (g : graph) (hid : edge -> list node),
+    wf_spec g -> wf_graph g -> frag_ABD g hid = true -> topo_ordered (inline g hid) = true ->
+  forall (ds : dstate) (T : list node) (ds' : dstate) (e : nat),
+    GoodD cmd g hid ds -> (e < g_nedges g)%nat -> ei_phony (g_edge g e) = false ->
+    reads_tainted g hid e = false ->
+    (exists n, reach g T n /\ g_producer g n = Some e) ->
+    (exists o, In o (ei_outs (g_edge g e)) /\ must_dirty (graph_of g (d_h ds)) (world_of_d ds) o) ->
+    dbuild cmd g hid ds T = Some ds' ->
+    In e (ran_since (d_h ds) (d_h ds')).
+Proof. exact wanted_untainted_runs. Qed.
+
+Theorem C10_same_commands_proof :
+  forall (cmd : edge -> N -> snapshot -> node -> content) (g : graph) (hid : edge -> list node),
+    wf_spec g -> wf_graph g -> frag_ABD g hid = true -> topo_ordered (inline g hid) = true ->
+    hidden_reads_ordered g hid = true -> no_restat_upstream_of_deps g hid = true ->
+    no_inputless_phony g = true ->
+  forall h : list hstep,
+    hist_ok g h = true ->
+    hist_side cmd g hid (init_dstate g) (init_hstate (inline g hid)) h = true ->
+    h_trace (d_h (drun_hist cmd g hid (init_dstate g) h)) =
+    h_trace (run_hist cmd (inline g hid) (init_hstate (inline g hid)) h) /\
+    forall n, content_of (d_h (drun_hist cmd g hid (init_dstate g) h)) n =
+              content_of (run_hist cmd (inline g hid) (init_hstate (inline g hid)) h) n.
+Proof.
+  intros cmd g hid Hwf Hwg Hfrag Htopo Hord Hnr Hnip h Hok Hside.
+  rewrite (C10_equiv_proof cmd g hid Hwf Hwg Hfrag Htopo Hord Hnr Hnip h Hok Hside). split; reflexivity.
+Qed.
